@@ -1,6 +1,8 @@
 """Helpers for symbolic extraction: tree walkers over THIR JSON and Term utilities."""
 
-from .interp import Term, Adt, PyVec, PyIter
+import re
+
+from .interp import Term, Adt, PyVec, PyIter, pat_str
 
 
 def walk(node, f):
@@ -184,3 +186,4 @@ def strip_expr(e):
             e = e["b"]["expr"]
         else:
             return e
+
